@@ -7,3 +7,9 @@ REPO="${VERIF_REPO:-/repo}"
 mkdir -p work/twofloat_nostd
 rsync -a --delete --exclude target --exclude .git --exclude Cargo.lock "$REPO"/ work/twofloat_nostd/
 sed -i '0,/^name = "twofloat"/s//name = "twofloat-nostd"/' work/twofloat_nostd/Cargo.toml
+# a second renamed copy, built with default features + verif_hooks: the ONLY build in which the hooks are on.
+# All property checks observe the crate exactly as users compile it (path = /repo, no verif_hooks); the hooked
+# copy serves C07 (is_valid of arbitrary word pairs), C11 (the internal fma) and the hooks-neutrality differential.
+mkdir -p work/twofloat_hooked
+rsync -a --delete --exclude target --exclude .git --exclude Cargo.lock "$REPO"/ work/twofloat_hooked/
+sed -i '0,/^name = "twofloat"/s//name = "twofloat-hooked"/' work/twofloat_hooked/Cargo.toml
